@@ -2011,6 +2011,9 @@ class AndNegMacro(Macro):
                 expected_conj.append(Not(conj.arg))
                 break
             conj = conj.arg
+        else:
+            # All conjuncts were unfolded: the last one must be negated too.
+            expected_conj.append(Not(conj))
         if neg_disjs != tuple(expected_conj):
             raise VeriTException("and_neg", "Unexpected goal")
         return Thm(Or(*args))
